@@ -11,14 +11,19 @@ CRATES = ['c06']
 MODES = ['debug', 'release']
 IMPORTS = ('Require Import V.Base.MachineInt V.Model.LogBase V.Model.Ring V.Model.RingThreads V.Spec.Fifo V.Oracle.C06Oracle.')
 RULE = ('seq: operation sequences on one ring (write lengths 0..cap/8+1, read limits {0,1,2,max}, size, next id, heartbeat, '
-        'unblock, dump after every op for small rings); exhaustive sequences over {write len, read limit} for cap in {8,16,32,64} '
-        '(length <= 6, stratified sample in quick) started at every 8-aligned index of the ring, plus starts at positions next to '
-        '2^31 and 2^32 and with a stale head cache; random sequences up to 500 ops for cap <= 4096. '
-        'non-trivial = the sequence contains a successful-looking write after the position has passed the end of the data area or a refusal candidate')
+        'unblock, dump after every op for small rings); length-6 sequences over {write len, read limit} for cap in {8,16,32,64} '
+        '(thorough: exhaustive for cap 8 and 16, 40000 samples for 32 and 64; quick: stratified sample) with the start rotating over every '
+        '8-aligned index of the ring, plus starts at positions next to 2^31 and 2^32 and with a stale head cache; random sequences up to '
+        '500 ops for cap <= 4096; malformed stream (type -1, over-long, negative limit). '
+        'conc: 2-3 producer threads x 1-3 writes + a consumer thread under the deterministic scheduler on the access hook: random '
+        'schedules (uniform and bursty) + all schedules with at most one pre-emption for three fixed programs; trace of hook events, '
+        'per-thread results, drain reads and final dump compared with the model. '
+        'non-trivial = seq: the writes pass the end of the data area and something is read; conc: every case')
 ASSUMPTIONS = [
     'message type ids are the command codes AeronCommand::from_command_id maps back (1..14, 0xF01..0xF0A); 0xF9 is C14\'s business',
     'write lengths are 0..cap/8 (+1 for the TooLong stream); negative lengths belong to C16',
     'the preset head cache is at most 2^31-1 bytes behind the tail (a cache staler than that needs a producer parked while 2 GiB pass)',
+    'conc: sequentially consistent interleaving at the granularity of AtomicBuffer accessors; every write of a case has its own type id',
 ]
 
 
@@ -52,23 +57,18 @@ def generate(rng, tier):
         total = len(alpha) ** n
         starts = list(range(0, cap, 8))
         if big:
-            budget = {8: total, 16: total, 32: 150000, 64: 150000}[cap]
+            budget = {8: total, 16: total, 32: 40000, 64: 40000}[cap]
         else:
-            budget = {8: 300, 16: 500, 32: 700, 64: 900}[cap]
+            budget = {8: 200, 16: 350, 32: 500, 64: 650}[cap]
         if budget >= total:
             seqs = itertools.product(range(len(alpha)), repeat=n)
         else:
             seqs = (tuple(rng.randrange(len(alpha)) for _ in range(n)) for _ in range(budget))
         for i, s in enumerate(seqs):
             p0 = starts[i % len(starts)] if budget >= total else rng.choice(starts)
-            if budget >= total and big:
-                # every start index for the exhaustive rings
-                for p in starts:
-                    cases.append(_mk(cap, p, [list(alpha[j]) for j in s]))
-            else:
-                cases.append(_mk(cap, p0, [list(alpha[j]) for j in s]))
+            cases.append(_mk(cap, p0, [list(alpha[j]) for j in s]))
     # random long sequences
-    for _ in range(40 if not big else 1500):
+    for _ in range(30 if not big else 600):
         cap = rng.choice([64, 128, 256, 1024, 4096])
         n = rng.choice([20, 60, 150, 500]) if big else rng.choice([20, 60, 150])
         p0 = 8 * rng.randrange(0, cap // 8) + rng.choice([0, 0, 2**31 - cap, 2**32 - cap, 2**33])
@@ -107,7 +107,7 @@ def _conc(cap, p0, pre, limits, progs, sched, post=None, stops=None):
 def gen_conc(rng, tier):
     big = tier == 'thorough'
     cases = []
-    nrand = 500 if not big else 20000
+    nrand = 300 if not big else 8000
     for i in range(nrand):
         cap = rng.choice([32, 64, 64, 128])
         nprod = rng.choice([2, 2, 3])
